@@ -15,6 +15,7 @@ props_for() {
     src/resources.rs) echo "C12 C06 C04 C01 C14 C19";;
     src/annotation.rs) echo "C02 C14";;
     src/api/resources.rs) echo "C07";;
+    src/selector.rs) echo "C04 C14 C19";;
     *) echo "";;
   esac
 }
